@@ -708,9 +708,9 @@ fn start(rng: &mut Rng, ctx: &mut Ctx) {
             let toks: [&[u8]; 9] = [b"A", b"z", b"7", &[0x82, 0xa0], &[0x83, 0x41], &[0xb1], &[0x81, 0x49], &[0x81, 0x40], b"#"];
             // one field in five is dense: a single class of character repeated up to (or one short of) the full width — half-width kana
             // (1 byte -> 3 bytes of UTF-8, the longest decoded form a field can have), two-byte kana, ASCII
-            let dense = match rng.next() % 15 { 0 => Some(5usize), 1 => Some(3), 2 => Some(0), _ => None };
+            let dense = match rng.next() % 15 { 0 => Some(5usize), 1 => Some(3), 2 => Some(0), 3 | 4 => Some(6), _ => None }; /* 6: legal Shift-JIS that is also well-formed multi-byte UTF-8 (pairs of half-width kana, lead bytes E0..EF lined up as three-byte UTF-8): still Shift-JIS */
             let target = if dense.is_some() { width - (rng.next() % 2) as usize } else { (rng.next() as usize) % (width + 1) }; let mut j = 0;
-            while j < target { let t = match dense { Some(5) => [&[0xb1u8][..], &[0xdf], &[0xa1], &[0xc0]][(rng.next() % 4) as usize], Some(d) => toks[d], None => toks[(rng.next() % 9) as usize] }; if j + t.len() > target { break; } b[off + j..off + j + t.len()].copy_from_slice(t); j += t.len(); }
+            while j < target { let t = match dense { Some(5) => [&[0xb1u8][..], &[0xdf], &[0xa1], &[0xc0]][(rng.next() % 4) as usize], Some(6) => [&[0xC3u8, 0xA9][..], &[0xC4, 0xB0], &[0xDF, 0xA1], &[0xE3, 0x81, 0x82, 0xE3, 0x81, 0x84]][(rng.next() % 4) as usize], Some(d) => toks[d], None => toks[(rng.next() % 9) as usize] }; if j + t.len() > target { break; } b[off + j..off + j + t.len()].copy_from_slice(t); j += t.len(); }
             if poison == Some(slot) && width >= 2 { let at = if j >= 2 { (rng.next() as usize) % (j - 1) } else { 0 }; let bad: &[u8] = [&[0x82u8, 0x20][..], &[0xff, 0x41], &[0x81, 0x7f]][(rng.next() % 3) as usize]; b[off + at..off + at + 2].copy_from_slice(bad); j = j.max(at + 2);
                 // the first bytes of the field look like a byte-order mark (UTF-16 LE / BE, UTF-8): invalid Shift-JIS like any other 0xFF / 0xFE / lone 0xEF
                 if rng.next() % 3 == 0 && width >= 5 { let bom: &[u8] = [&[0xffu8, 0xfe, 0x41, 0x30][..], &[0xfe, 0xff, 0x30, 0x41], &[0xef, 0xbb, 0xbf, 0x41]][(rng.next() % 3) as usize]; b[off..off + 4].copy_from_slice(bom); j = j.max(4); } }
